@@ -288,6 +288,39 @@ theorem proj_polyline_all_skipped {sqrt : α → α} (hs : SqrtSpec sqrt) (eps :
   exact ⟨hnear, near_vertex_bound x y p0.1 p0.2 qx qy _ _ _ d0 e0 (le_of_eq dd) ee hnear,
     near_vertex_bound x y qx qy p0.1 p0.2 _ _ _ e0 d0 (le_of_eq ee) dd hnear'⟩
 
+/-- `proj_polyline_on`: what an answer `(d, (px,py), i)` of `proj_polyligne` guarantees on ANY polyline, with or without a kept
+segment, of any orientation: vertex `i` exists; `d` is the distance from the query to `(px,py)`; when the polyline has at
+least two vertices, segment `i` exists and `(px,py)` lies on it (a kept segment, or — every segment skipped — segment 0, of
+which it is the first end); on a single-vertex polyline `i = 0` and `(px,py)` is that vertex. This is what C10's candidate
+loop uses (position on an existing edge geometry, distance within the radius). -/
+theorem proj_polyline_on {sqrt : α → α} (hs : SqrtSpec sqrt) (eps : α) (pts : List (α × α))
+    (x y d px py : α) (i : Nat) (h : projPolyligne sqrt eps pts x y = .ok (d, px, py, i)) :
+    0 ≤ d ∧ d * d = d2 x y px py ∧ ∃ p1, pts[i]? = some p1 ∧
+      (2 ≤ pts.length → ∃ p2, pts[i + 1]? = some p2 ∧ OnSeg p1.1 p1.2 p2.1 p2.2 px py) ∧
+      (pts.length = 1 → i = 0 ∧ (px, py) = p1) := by
+  by_cases hex : ∃ j p1 p2, pts[j]? = some p1 ∧ pts[j + 1]? = some p2 ∧ skipped eps p1.1 p1.2 p2.1 p2.2 = false
+  · obtain ⟨⟨p1, p2, s1, s2, _, hon⟩, d0, dd, _⟩ := proj_polyline_min_partial hs eps pts x y d px py i h hex
+    refine ⟨d0, dd, p1, s1, fun _ => ⟨p2, s2, hon⟩, fun h1 => ?_⟩
+    have := (List.getElem?_eq_some_iff.mp s2).1
+    omega
+  · have hsk : ∀ j p1 p2, pts[j]? = some p1 → pts[j + 1]? = some p2 → skipped eps p1.1 p1.2 p2.1 p2.2 = true := by
+      intro j p1 p2 t1 t2
+      cases hk : skipped eps p1.1 p1.2 p2.1 p2.2 with
+      | true => rfl
+      | false => exact absurd ⟨j, p1, p2, t1, t2, hk⟩ hex
+    match pts, h, hsk with
+    | [], h, _ => simp [projPolyligne] at h
+    | p0 :: rest, h, hsk =>
+      obtain ⟨d', e', d0, dd, _⟩ := proj_polyline_all_skipped hs eps p0 rest x y hsk
+      rw [e'] at h
+      injection h with h
+      simp only [Prod.mk.injEq] at h
+      obtain ⟨rfl, rfl, rfl, rfl⟩ := h
+      refine ⟨d0, dd, p0, rfl, ?_, fun _ => ⟨rfl, rfl⟩⟩
+      intro h2
+      match rest, h2 with
+      | p1 :: rest', _ => exact ⟨p1, rfl, ⟨0, le_refl _, zero_le_one, by ring, by ring⟩⟩
+
 /-- the repair is conservative: whenever the pre-fix function (`projPolyligneOld`, kept only as the documented old variant:
 `none` = its `UnboundLocalError`) returned an answer, the current one returns the same; where it raised
 `UnboundLocalError` on a non-empty polyline the current one returns the first vertex -/
